@@ -389,6 +389,13 @@ where
 {
     in_window(|| {
         let arena = new_arena();
+        // values of type Z handed to the cache: each is destructed exactly once (at once when the shared
+        // pointer is served, with the allocation otherwise)
+        let made = std::cell::Cell::new(0usize);
+        let mk = || {
+            made.set(made.get() + 1);
+            Z::new()
+        };
         arena.mutate(|mc, _| -> Result<(), String> {
             let cache = ZstCache::<CA>::new(mc);
             let cached_addr = Gc::as_ptr(cache.cached_ptr()) as usize;
@@ -399,11 +406,11 @@ where
             let expect_cached = std::mem::size_of::<Z>() == 0 && Z::A <= CA;
             let (addr, is_cached) = match entry {
                 0 => {
-                    let g = talloc::subject(|| cache.alloc(mc, Z::new()));
+                    let g = talloc::subject(|| cache.alloc(mc, mk()));
                     (Gc::as_ptr(g) as usize, cache.is_cached(g))
                 }
                 1 => {
-                    let g = talloc::subject(|| cache.alloc_static(mc, Z::new()));
+                    let g = talloc::subject(|| cache.alloc_static(mc, mk()));
                     (Gc::as_ptr(g) as usize, cache.is_cached(g))
                 }
                 _ => match cache.alloc_zst::<Z>() {
@@ -432,7 +439,7 @@ where
             // two different zero-sized types served from the cache are the same allocation: ptr_eq must say
             // so also after unsizing both to the same trait-object type (different vtables)
             if expect_cached && CA >= 2 {
-                let a: Gc<dyn std::any::Any> = unsize!(cache.alloc(mc, Z::new()) => dyn std::any::Any);
+                let a: Gc<dyn std::any::Any> = unsize!(cache.alloc(mc, mk()) => dyn std::any::Any);
                 let b: Gc<dyn std::any::Any> = unsize!(cache.alloc(mc, Marker2) => dyn std::any::Any);
                 if !Gc::ptr_eq(a, b) || !GcWeak::ptr_eq(Gc::downgrade(a), Gc::downgrade(b)) || !cache.is_cached(a) || !cache.is_cached(b) {
                     return Err("two cached zero-sized values unsized to the same trait-object type are not ptr_eq".into());
@@ -446,6 +453,9 @@ where
             Ok(())
         })?;
         drop(arena);
+        if Z::DROPS && dlog_count(Z::L, Z::A) != made.get() {
+            return Err(format!("{} value(s) of the type were handed to the cache / allocated, {} destructor run(s) over the arena's lifetime", made.get(), dlog_count(Z::L, Z::A)));
+        }
         Ok(())
     })
 }
